@@ -43,7 +43,7 @@ def strategy(tier):
 
     @st.composite
     def _s(draw):
-        case = draw(SC.solve_case(families=("nlp", "nlp", "qp", "degenerate", "patternvar"), max_n=max_n, max_m=max_m,
+        case = draw(SC.solve_case(families=("nlp", "nlp", "qp", "degenerate", "patternvar", "intbox"), max_n=max_n, max_m=max_m,
                                   iteration_limit=300 if tier == "quick" else 1500))
         kind = draw(st.sampled_from(["solver"] * 4 + ["integration"]))
         if kind == "integration" and case["spec"]["n"] > 4:
